@@ -488,10 +488,18 @@ def _all_lag_conds(topo, start):
 
 def _judge_step(topo, start, decs, outcome, it):
     d = {}
+    def _is_pub(x):
+        return isinstance(x, Sym) and x.op == "T"  # time of an output's newest publication
+
     for c, v in decs:
-        if isinstance(c, Sym) and c.op == "lt":
-            d[(c.args[0], c.args[1])] = v
-        elif isinstance(c, Sym) and c.op == "le":
+        if not (isinstance(c, Sym) and c.op in ("lt", "le") and len(c.args) == 2):
+            continue
+        a, b = c.args
+        if c.op == "lt" and _is_pub(a):
+            d[(a, b)] = v  # published < requested: the strict lag test
+        elif c.op == "le" and _is_pub(b):
+            d[(b, a)] = not v  # requested <= published: its exact complement (`published >= requested`)
+        elif _is_pub(a) or _is_pub(b):
             return f"non-strict lag test {c!r}"
     qs = _all_lag_conds(topo, start)
     known = {}
@@ -615,7 +623,10 @@ def r09_structure(repo, sink):
         raise AnalysisError("_update_recursive: expected (comp, chain, ...) parameters")
     comp_p, chain_p = params[0], params[1]
     rec_calls = [c for c in calls(fn, fn.name) if isinstance(c.func, ast.Attribute) and self_attr(c.func) == fn.name]
-    sink.floor("R09", "recursive calls", len(rec_calls), 1, f)
+    if not rec_calls:
+        sink.ok("R09", "cycle-test-shape", f, "no direct recursion in _update_recursive (recursion through helpers); cycle handling and termination are "
+                                              "decided by the decision table (step:cycle*), whose abstract runs follow every call")
+        return
     raises = [n for n in fn_walk(fn) if isinstance(n, ast.Raise) and n.exc is not None
               and "FinamCircularCouplingError" in U(n.exc)]
     tests = [n for n in fn_walk(fn) if isinstance(n, ast.If)
